@@ -44,6 +44,7 @@ def prefix_block(path, sid):
 
 
 def run(c):
+    disagree = None
     pr = c.coq_props(PROPS, extra_targets=["Extract/ExFrame.v"])
     okb, _ = c.ocaml_build("frame_model", "c09_run.ml", "c09_run")
     okg, _ = c.go_build()
@@ -97,8 +98,14 @@ def run(c):
                 c.violation(rep)
             if (m1 or m2) and not (v1 or v2):
                 c.broken.append("correspondence model<->implementation: %d disagreements, first: %s" % (len(m1) + len(m2), (m1 + m2)[0][:600]))
+                mc = re.search(r"case=(\d+)", (m1 + m2)[0])
+                if m1 and mc:
+                    disagree = cc.first_case_text(hist, mc.group(1))
     if c.broken and not c.violations:
-        c.violation({"kind": "proof or correspondence no longer checks; no history violating C09 was found", "broken": c.broken}, no_input=True)
+        rep = {"kind": "proof or correspondence no longer checks; no history violating C09 was found", "broken": c.broken}
+        if disagree:
+            rep["history"] = disagree  # the history on which model and implementation differ (replayable)
+        c.violation(rep, no_input=True)
     if c.tier == "thorough" and pr["ok"]:
         okc, outc = c.coqchk(PROPS)
         cov["coqchk"] = {"ok": okc, "tail": outc[-1200:]}
